@@ -189,10 +189,14 @@ async fn handle_raw_message(args: ListenArgs, buf: &[u8]) -> Option<Message> {
             }
         }
 
+        // Do not respond to a malformed message which is flagged as a
+        // response either, for the same reason as above.
+        Err(_) if is_flagged_as_response(buf) => None,
+
         // An attacker could craft an incomplete message with the source address
         // / port being resolved's, which would make resolved respond to itself
         // here, but this is fine so long as (1) the response we send is valid
-        // and (2) we don't reply to a valid message which is a response.
+        // and (2) we don't reply to a message which is a response.
         Err(err) => err.id().map(Message::make_format_error_response),
     }
 }
@@ -212,6 +216,12 @@ async fn listen_tcp_task(args: ListenArgs, socket: TcpListener) {
                         Ok(bytes) => handle_raw_message(args, bytes.as_ref()).await,
                         Err(error) => {
                             let id = match error {
+                                TcpError::TooShort {
+                                    is_response: true, ..
+                                }
+                                | TcpError::IO {
+                                    is_response: true, ..
+                                } => None,
                                 TcpError::TooShort { id, .. } => id,
                                 TcpError::IO { id, .. } => id,
                             };
